@@ -9,8 +9,23 @@
        placeholder, that element included): a Start / element whose declared path does not match the open chain,
      - a Full item (cannot occur when nothing is buffered);
    a Start pushes its id, an End pops, and the result is the final (open, det).
-   "Strict": unknown ids and hierarchy errors are not tolerated and no master is buffered. *)
-From Ebml Require Import Base Tools Spec Reader Pure Proofs.Nesting.
+   "Strict": unknown ids and hierarchy errors are not tolerated and no master is buffered.
+
+   Byte ranges (second half of this file, proofs in Proofs/Extents.v): with oversized children not tolerated
+   ([c_allow_over c = false]; the other tolerances arbitrary) and no master buffered, every element lies inside the byte range
+   of each enclosing known-size master and the End of such a master is emitted exactly when its range is exhausted.
+   PARTIAL only in this:
+     - the run-level statement (an independent checker over the yielded items and the input bytes, C06_run_extents) covers
+       the items yielded before the first error or try_recover call (all items of a drain, C06_run_all_extents); after errors
+       and recoveries the same facts are stated as an invariant of every reachable reader state together with what one
+       read_next call does in such a state (C06_contained, C06_reachable, C06_element_inside, C06_end_at_exhaustion);
+     - a try_recover call that fails has skipped to the end of the input without enlarging the open masters: from then on the
+       cursor may lie past the end of an open known-size master, whose End then comes late (nothing else can come: no input
+       is left).  Likewise at the end of a truncated input the Ends of the open masters are emitted (if so configured) although
+       their ranges are not exhausted.  Both exceptions are part of the statements;
+     - buffered masters (Full items) and the oversize-tolerant configuration are not covered; the statements are about the
+       abstract reader (the buffered machine yields the same items, Proofs/Refine.v). *)
+From Ebml Require Import Base Tools Spec Reader Pure Proofs.Nesting Proofs.BufferSim Proofs.Tiling Proofs.Extents.
 
 (* For every input and every sequence of next() / try_recover() / drain operations (so also for the items that follow errors
    and recoveries), the emitted tags are accepted by the checker started with nothing determined and some base chain.  The
@@ -75,4 +90,172 @@ Example C06_ex_reject :
   chk sp [] false [TStart 129; TEnd 129; TEnd 129] = None /\
   chk sp [] false [TStart 129; TStart 130; TElem 16641 (VU 5); TEnd 130] = Some ([129], true) /\
   chk sp [] false [TStart 129; TStart 130; TElem 16641 (VU 5); TEnd 130; TEnd 129] = Some ([], true).
+Proof. vm_compute. repeat split; reflexivity. Qed.
+
+(* ================================================================== byte ranges *)
+(* Vocabulary (Proofs/Extents.v).  A frame [f] of the reader's stack is an open master: [f_data f] is the offset of its first
+   content byte, [f_size f] its declared size; the range of a known-size master is [f_data f, f_data f + n).
+     within hi f   : [hi <= f_data f + n] if [f_size f = SKnown n], no constraint otherwise
+     contained st  : Forall (within (b_off st)) (b_stack st)  - the cursor is not past the end of any open known-size master
+     started st    : every open master's content starts at or before the cursor
+     nested st     : along the stack (innermost first) the range of each known-size master ends no later than the range of
+                     every known-size master below it
+     CInv st       : started st /\ nested st /\ contained st
+     WInv st       : started st /\ nested st /\ (contained st \/ b_bytes st = [])
+     ksize e       : n for [SKnown n], 0 for [SUnknown]
+     rec_failed o  : the outcome [o] is a failed try_recover ([ORecErr _]) *)
+
+(* The state every run ends in - and so every state it passes through, these being the final states of the runs of the
+   prefixes of [ops] -: ranges nested, contents started, and the cursor inside every open known-size master as long as input
+   is left, or no try_recover call has failed. *)
+Theorem C06_contained : forall c input ops, c_allow_over c = false -> c_buffered c = [] ->
+  let st := fst (p_run_ops c (4 * length input + 64) (p_init input) ops) in
+  let inside := Forall (fun f => match f_size f with SKnown n => b_off st <= f_data f + n | SUnknown => True end) (b_stack st) in
+  started st /\ nested st /\ (b_bytes st <> [] -> inside) /\
+  (existsb rec_failed (p_run c input ops) = false -> b_bad st = None -> inside).
+Proof. exact run_ranges. Qed.
+
+(* The step form.  The three properties hold initially; next() preserves them; so does a successful try_recover(), which
+   enlarges every open known-size master by exactly the distance it skipped; a failed try_recover() has used up the input. *)
+Theorem C06_contained_init : forall input, CInv (p_init input).
+Proof. exact CInv_init. Qed.
+
+Theorem C06_contained_preserved : forall c st, c_allow_over c = false -> c_buffered c = [] -> CInv st ->
+  CInv (fst (p_next c st)) /\
+  (snd (p_try_recover c st) = None -> CInv (fst (p_try_recover c st))) /\
+  (forall e, snd (p_try_recover c st) = Some e ->
+     started (fst (p_try_recover c st)) /\ nested (fst (p_try_recover c st)) /\ b_bytes (fst (p_try_recover c st)) = []).
+Proof. exact CInv_preserved. Qed.
+
+(* [Reach c input st]: [st] is obtained from the initial state by next() and try_recover() calls; runs end in such states *)
+Theorem C06_reachable : forall c input st, c_allow_over c = false -> c_buffered c = [] -> Reach c input st -> WInv st.
+Proof. exact reach_invariant. Qed.
+
+Theorem C06_run_reachable : forall c input ops, Reach c input (fst (p_run_ops c (4 * length input + 64) (p_init input) ops)).
+Proof. exact run_reach. Qed.
+
+(* Every tag read_tag accepts, in any state whose open masters have started (every reachable state): the item reports the
+   cursor as its offset; its bytes are [p_start p, b_off st') - header only for a master, header and payload for an element -;
+   for every open known-size master [f] (the stack after the read is the stack before it plus, possibly, implied ancestors of
+   unknown size): the tag begins at or after the master's first content byte, ends at or before the end of its range, and
+   if the tag is itself a master of known size m its whole declared range [p_data p, p_data p + m) ends there too - this is
+   the test is_invalid_tag_size makes. *)
+Theorem C06_element_inside : forall c st st' p, c_allow_over c = false -> started st -> p_read_tag c st = (st', Ok p) ->
+  p_start p = b_off st /\ p_start p <= p_data p /\ b_off st' <= p_data p + ksize (p_size p) /\
+  (forall id, p_tag p = TStart id -> b_off st' = p_data p) /\
+  (forall id v, p_tag p = TElem id v -> exists m, p_size p = SKnown m /\ b_off st' = p_data p + m) /\
+  ext_of (b_stack st) (b_stack st') /\
+  forall f n, In f (b_stack st') -> f_size f = SKnown n ->
+    f_data f <= p_start p /\ b_off st' <= f_data f + n /\ p_data p + ksize (p_size p) <= f_data f + n.
+Proof. exact tag_inside. Qed.
+
+(* One read_next call in a state [st] satisfying the invariant.  It first queues the Ends of the [k1] topmost open masters
+   (C06_read_next_queue below): each known-size one among them ends exactly at the cursor, and every open known-size master
+   that ends at the cursor is among them.  The tag it then reads begins strictly before the end of every known-size master
+   still open, and lies inside each of them as in C06_element_inside. *)
+Theorem C06_end_at_exhaustion : forall c st, c_allow_over c = false -> started st -> nested st -> contained st ->
+  let k1 := exhausted_count (b_off st) (b_stack st) in
+  let st1 := ppop_frames st k1 in
+  (forall f n, In f (firstn k1 (b_stack st)) -> f_size f = SKnown n -> f_data f + n = b_off st) /\
+  (forall f n, In f (b_stack st) -> f_size f = SKnown n -> f_data f + n = b_off st -> In f (firstn k1 (b_stack st))) /\
+  (forall st2 p, p_read_tag c st1 = (st2, Ok p) ->
+     forall f n, In f (b_stack st2) -> f_size f = SKnown n ->
+       f_data f <= p_start p /\ p_start p < f_data f + n /\ b_off st2 <= f_data f + n /\
+       p_data p + ksize (p_size p) <= f_data f + n).
+Proof. exact read_next_extents. Qed.
+
+(* What one read_next call appends to the queue: the Ends of the exhausted masters; then the Ends of the masters the tag ends
+   by its place in the hierarchy followed by the tag, or an error, or nothing (panic site), or - at the end of the input, if so
+   configured - the Ends of everything still open.  The masters ended by hierarchy are all of unknown size: the End of a
+   known-size master is queued only when its range is exhausted or the input is. *)
+Theorem C06_read_next_queue : forall c f st, c_buffered c = [] ->
+  let k1 := exhausted_count (b_off st) (b_stack st) in
+  let st1 := ppop_frames st k1 in
+  b_queue st1 = b_queue st ++ map end_item (firstn k1 (b_stack st)) /\
+  b_queue (p_read_next (S f) c st) = b_queue st1 ++
+    match p_read_tag_checked c st1 with
+    | (st2, Some (Ok p)) =>
+        map end_item (firstn (count_ended (c_sp c) (tag_id (p_tag p)) (stack_view (b_stack st2))) (b_stack st2)) ++
+        [QOk (p_tag p) (p_start p)]
+    | (st2, Some (Err e)) => [QErr e]
+    | (st2, Some Panic) => []
+    | (st2, None) => if c_emit_eof c then map end_item (b_stack st1) else []
+    end.
+Proof. exact p_read_next_queue. Qed.
+
+Theorem C06_hierarchy_ends_unknown_size : forall sp tid stk,
+  Forall (fun f => f_size f = SUnknown) (firstn (count_ended sp tid (stack_view stk)) stk).
+Proof. exact count_ended_unknown. Qed.
+
+(* Run level.  [chk_ext input open cur items] (Proofs/Extents.v) judges a sequence of (tag, offset) items against the input
+   bytes alone.  For a Start / element item it decodes the header found in the input at the item's offset ([hdr_at]: length
+   and declared size).  [open] is the chain of open masters, innermost first: (id, offset of the Start item, end of the declared
+   range if the size is known); [cur] is the end of the bytes of the last Start / element item.  It fails (None) on
+     - a Start / element item that does not begin at [cur], or not strictly before the end of every open known-size master, or
+       whose bytes (header, and payload of an element; for a known-size master its whole declared range) end after the end of
+       some open known-size master, or at whose offset no header can be decoded, or an element of unknown size;
+     - an End that does not name the innermost open master and its offset, or that closes a known-size master while [cur] is
+       not exactly the end of its range - unless the input is used up ([length input <= cur]);
+     - a Full item.
+   A Start pushes, an End pops; the result is the final (open, cur).  The base chain stands for the implied ancestors of a
+   mid-document start (offset 0, no range), as in C06_strict_items_well_nested.
+   For every input and every sequence of operations the items yielded before the first error or try_recover call are
+   accepted; so are all items of a drain. *)
+Theorem C06_run_extents : forall c input ops, c_allow_over c = false -> c_buffered c = [] ->
+  exists base, nobase base /\ chk_ext input base 0 (out_pairs (clean_prefix (p_run c input ops))) <> None.
+Proof. exact run_extents. Qed.
+
+Theorem C06_run_all_extents : forall c input, c_allow_over c = false -> c_buffered c = [] ->
+  exists base, nobase base /\ chk_ext input base 0 (out_pairs (p_run c input [RAll])) <> None.
+Proof. exact run_all_extents. Qed.
+
+(* the checker is compositional, so every prefix of an accepted sequence is accepted *)
+Theorem C06_chk_ext_app : forall input a b open cur,
+  chk_ext input open cur (a ++ b) =
+  match chk_ext input open cur a with Some (o, c) => chk_ext input o c b | None => None end.
+Proof. exact chk_ext_app. Qed.
+
+(* Root(129) > Seg(130) > Val(16641).  Root of known size, Seg of unknown size, Val (header 3 bytes at offset 4, payload 1
+   byte) inside Seg, then an empty second Root at offset 8.
+   [tight]: Root declares 4 content bytes, range [2, 6): Val would end at 8, past the end of its grandparent: rejected.
+   [roomy]: Root declares 6 content bytes, range [2, 8): Val is accepted; both Ends come when the cursor reaches 8, before the
+   next Root is read at offset 8.
+   [wide]: Root declares 7 content bytes, range [2, 9): at offset 8 the range is not exhausted, no End is emitted, and the
+   second Root is (wrongly placed) content of Seg.
+   [late]: like roomy with a second Val at offset 8, outside the exhausted Root: the Ends come first. *)
+Example C06_ex_ranges :
+  let sp := [ {| e_id := 129; e_ty := DMaster; e_path := [] |}; {| e_id := 130; e_ty := DMaster; e_path := [PId 129] |};
+              {| e_id := 16641; e_ty := DUInt; e_path := [PId 129; PId 130] |} ] in
+  let c := {| c_sp := sp; c_allow_id := false; c_allow_hier := false; c_allow_over := false; c_max := Some 4000000000;
+              c_buffered := []; c_emit_eof := true |} in
+  let tight := [129; 132; 130; 255; 65; 1; 129; 5; 129; 128] in
+  let roomy := [129; 134; 130; 255; 65; 1; 129; 5; 129; 128] in
+  let wide := [129; 135; 130; 255; 65; 1; 129; 5; 129; 128] in
+  let late := [129; 134; 130; 255; 65; 1; 129; 5; 65; 1; 129; 6] in
+  p_run c tight [RAll] = [OItem (TStart 129) 0; OItem (TStart 130) 2; OErr (ROversized 4 16641 1)] /\
+  p_run c roomy [RAll] =
+    [OItem (TStart 129) 0; OItem (TStart 130) 2; OItem (TElem 16641 (VU 5)) 4; OItem (TEnd 130) 2; OItem (TEnd 129) 0;
+     OItem (TStart 129) 8; OItem (TEnd 129) 8; ONone] /\
+  p_run c wide [RAll] =
+    [OItem (TStart 129) 0; OItem (TStart 130) 2; OItem (TElem 16641 (VU 5)) 4; OErr (RHierarchy 129 (Some 130))] /\
+  p_run c late [RAll] =
+    [OItem (TStart 129) 0; OItem (TStart 130) 2; OItem (TElem 16641 (VU 5)) 4; OItem (TEnd 130) 2; OItem (TEnd 129) 0;
+     OErr (RHierarchy 16641 None)] /\
+  hdr_at roomy 4 = Some (3%nat, SKnown 1) /\
+  chk_ext roomy [] 0 (out_pairs (p_run c roomy [RAll])) = Some ([], 10) /\
+  chk_ext tight [] 0 (out_pairs (p_run c tight [RAll])) = Some ([(130, 2, None); (129, 0, Some 6)], 4).
+Proof. vm_compute. repeat split; reflexivity. Qed.
+
+(* the checker is not permissive: an element that overruns its known-size grandparent, an End before the range is exhausted,
+   an item after the range is exhausted without the End, and an End of the inner master only are all rejected *)
+Example C06_ex_ranges_reject :
+  let tight := [129; 132; 130; 255; 65; 1; 129; 5; 129; 128] in
+  let roomy := [129; 134; 130; 255; 65; 1; 129; 5; 129; 128] in
+  chk_ext tight [] 0 [(TStart 129, 0); (TStart 130, 2); (TElem 16641 (VU 5), 4)] = None /\
+  chk_ext roomy [] 0 [(TStart 129, 0); (TStart 130, 2); (TEnd 130, 2); (TEnd 129, 0)] = None /\
+  chk_ext roomy [] 0 [(TStart 129, 0); (TStart 130, 2); (TElem 16641 (VU 5), 4); (TStart 129, 8)] = None /\
+  chk_ext roomy [] 0 [(TStart 129, 0); (TStart 130, 2); (TElem 16641 (VU 5), 4); (TEnd 130, 2); (TStart 129, 8)] = None /\
+  chk_ext roomy [] 0 [(TStart 129, 0); (TStart 130, 2); (TElem 16641 (VU 5), 5)] = None /\
+  chk_ext roomy [] 0 [(TStart 129, 0); (TStart 130, 2); (TElem 16641 (VU 5), 4); (TEnd 130, 2); (TEnd 129, 0); (TStart 129, 8);
+                      (TEnd 129, 8)] = Some ([], 10).
 Proof. vm_compute. repeat split; reflexivity. Qed.
